@@ -30,6 +30,7 @@ import json
 import os
 
 import linetrace
+import statustrace
 from vlib import (Infra, build_drivers, read_ndjson, run_driver, tlc, tlc_simulate,
                   write_evidence)
 
@@ -98,7 +99,8 @@ def model_check(ctx):
         raise Infra("Session.tla: FreshAfterClose fails:\n" + r["out"][-1500:])
     states += r["distinct"]
     trans += r["generated"]
-    return states, trans
+    s2, t2 = statustrace.model_check(ctx)
+    return states + s2, trans + t2
 
 
 def run(ctx):
@@ -168,6 +170,10 @@ def run(ctx):
             what="link tap log", segment_op="reset")
     ctx.cov["link_tap_lines_validated"] = link_lines
     ctx.cov["link_sessions_rejected"] = link_rej
+    # what the clients and the server were told about the session
+    # (Status.tla): register hooks, relay answers, ConnStatus polls
+    ctx.cov.update(statustrace.validate(ctx, os.path.join(out, "c11status.ndjson"),
+                                        "tr_status", "session"))
     # the harness's expectations
     scen = "?"
     unmet = 0
